@@ -23,17 +23,18 @@ Recipe pool_recipe(uint64_t master, uint64_t idx, bool many) {
   r.sig = (int)g.below(6); if (g.chance(0.1)) r.sig = 4;
   r.seed = g.next() % 100000; r.ncomm = (int)g.below(4);
   if (g.chance(0.12) && r.n > 6000) r.cut = 1 + (int)g.below(30);
+  if (!r.cut && r.n > 4000 && g.chance(0.10)) { r.trim = 1 + (int)g.below(300); r.tk = 2 + (int)g.below(5); }
   if (r.ch >= 2 && r.ch <= 8 && g.chance(0.15)) r.mute = 1 + (int)g.below((1u << r.ch) - 2);
   return r;
 }
 
 void build_stream(const Plan &plan, StreamRef &sr) {
-  sr = StreamRef();
+  sr = StreamRef(); std::vector<int> lr_pol, lr_k;
   for (auto *lr : plan.all("link")) {
     Recipe r = Recipe::from(*lr);
     auto l = get_link(r);
     if (!l->ok) continue;
-    MuxPolicy mp; mp.policy = (int)lr->i("pol", 0); mp.k = (int)lr->i("k", 4); mp.serial = lr->i("serial", 1000 + (long)sr.ps.links.size());
+    MuxPolicy mp; mp.policy = (int)lr->i("pol", 0); mp.k = (int)lr->i("k", 4); lr_pol.push_back(mp.policy); lr_k.push_back(mp.k); mp.serial = lr->i("serial", 1000 + (long)sr.ps.links.size());
     std::vector<Pkt> foreign;
     if (lr->i("foreign", 0)) {
       Prng fr(mix64(r.seed, 0xF0)); int np = 2 + (int)fr.below(6);
@@ -51,6 +52,7 @@ void build_stream(const Plan &plan, StreamRef &sr) {
     Link &l = *sr.ps.links[i]; int64_t go = 0;
     if ((l.r.cut || l.r.bs64) && !l.audio.empty()) go = std::max<int64_t>(0, l.audio.back().granule - l.len);
     sr.goff.push_back(go);
+    if (l.r.trim && (lr_pol[i] != 1 || lr_k[i] != std::max(2, l.r.tk))) sr.ambiguous_cut = true;   // the page layout must put exactly the granule-bearing packets last on their pages
     if (l.r.bs64) { bool ok2 = false; for (auto &p : sr.ps.pages) if (p.link == i && !p.header) { ok2 = p.completed >= 2; break; } if (!ok2) sr.ambiguous_cut = true; }
     if (l.r.cut || l.r.bs64) { int ap = 0; for (auto &p : sr.ps.pages) if (p.link == i && !p.header) ap++; if (ap < 2) sr.ambiguous_cut = true; }
   }
